@@ -120,6 +120,28 @@ Proof.
   rewrite !split_once_app in E by assumption. injection E as -> ->. exact Hs.
 Qed.
 
+(* the same at the level of Request.get_cookie: whatever the Cookie header is,
+   pickle.loads is called only on the base64-decoding of a message whose
+   transmitted signature is base64(mac(key, message)) *)
+Lemma request_loader_guarded hdr key secret arg :
+  snd (get_cookie val mac loads hdr key secret) = Some arg ->
+  exists sec value d k sig msg,
+    secret = Some sec /\ parse_cookies hdr = PCookies d /\ assoc_get key d = Some value
+    /\ utf8_encode value = Some (33 :: sig ++ 63 :: msg) /\ utf8_encode sec = Some k
+    /\ ~ In 63 sig /\ sig = b64encode (mac k msg) /\ b64decode msg = Some arg.
+Proof.
+  unfold get_cookie. destruct (parse_cookies hdr) as [d| |] eqn:Ep; try discriminate.
+  destruct secret as [sec|].
+  - destruct (nonempty sec) eqn:En.
+    + destruct (assoc_get key d) as [[|c v']|] eqn:Eg; try discriminate.
+      destruct (cookie_decode val mac loads (c :: v') sec) as [|a r| |] eqn:Ed; try discriminate.
+      intros H. assert (a = arg) by (destruct r; [| |destruct (str_eqb name key)]; simpl in H; congruence).
+      subst a. destruct (loader_guarded _ _ _ _ Ed) as [d0 [k [sig [msg [E1 [E2 [E3 [E4 [E5 [E6 _]]]]]]]]]].
+      subst d0. exists sec, (c :: v'), d, k, sig, msg. repeat split; assumption.
+    + destruct (assoc_get key d) as [[|c v']|]; discriminate.
+  - destruct (assoc_get key d) as [[|c v']|]; discriminate.
+Qed.
+
 Hypothesis mac_bytes : forall k m, bytes_ok (mac k m).
 
 (* payload changed, signature kept: acceptance IS a MAC collision *)
